@@ -74,7 +74,6 @@ func vLazyWindow(n int, base int64, valid int64, junk byte) []byte {
 	return b
 }
 
-
 // op 0: Seek(off, SeekStart) with 0 <= off <= F; op 1: Seek(0, SeekCurrent); op 2: Read(p), 1 <= len(p) <= k
 func VerifC07Step(op int, k int, twin int) {
 	F := int64(vInt("F"))
